@@ -25,3 +25,10 @@ add("C04", "exploration", "property-based testing (Hypothesis) with an independe
 add("C02", "exploration", "property-based testing (Hypothesis): stdlib json as independent parser + expected-document oracle + read-back round trip + streamed-vs-returned differential",
     "Generated tables with arbitrary-Unicode IDs/strings, arbitrary JSON-representable and numpy metadata and any finite float64 values are written with to_json (returned and direct_io forms); the text must parse with json.loads, equal the expected document field by field (triples = exactly the non-zero cells with == values), read back identically through five reader entry points, and the streamed form must be the same JSON document.",
     "Holds on generated cases only.", "DESIGN.md 5/C02")
+
+add("C03", "exploration", "property-based testing (Hypothesis): export -> import round trip through API and `biom convert`",
+    "Generated tables with TSV-safe but otherwise arbitrary IDs (numeric-looking, spaced, non-ASCII), any finite float64 and an optional exported observation-metadata category are exported (to_tsv, str, direct_io, convert --to-tsv) and re-imported (list of lines, handle, path, gzip path, readlines, convert --to-json/--to-hdf5 --process-obs-metadata); IDs in order, exact values and the category after the inverse processing function must be preserved.",
+    "The text handed to the importer is exactly the exporter's output.", "DESIGN.md 5/C03")
+add("C14", "exploration", "property-based testing (Hypothesis): differential subset-on-read vs read-then-filter in a reference model",
+    "For generated files (HDF5 and JSON written by the library) every subset-on-read variant (from_hdf5 with and without metadata, parse_table(ids=), subset-table -i, subset-table -j on compact/spaced/indented re-serialisations) is compared with loading everything and filtering in the dense model (then dropping all-zero other-axis vectors where documented); requests naming an unknown ID must be refused.",
+    "Holds on generated cases only.", "DESIGN.md 5/C14")
